@@ -65,6 +65,7 @@ package persistence
 //@ lemma [C13:sql-loadlatest-newest-first-limit-1] defaultLoadLatestQuery == "SELECT key_record from encryption_key WHERE id = ? ORDER BY created DESC LIMIT 1"
 
 //@ func NewSQLMetastore
+//@   names dbHandle, opts
 //@   facet C13
 //@   opt no-frame
 //@   ensures [C13:sql-defaults-wired] len(opts) == 0 ==> result != nil && result.db == dbHandle && result.storeKeyQuery == defaultStoreKeyQuery && result.loadKeyQuery == defaultLoadKeyQuery && result.loadLatestQuery == defaultLoadLatestQuery
@@ -73,6 +74,7 @@ package persistence
 //@ extern sql.(*DB).ExecContext
 //@   names db, ctx, query, args
 //@ func (*SQLMetastore).Store
+//@   names s, ctx, keyID, created, envelope
 //@   facet C18
 //@   opt no-frame
 //@   requires s != nil && s.db != nil
